@@ -500,6 +500,9 @@ func c12rJudge(c *Ctx, sp c12rSpec, outs []c12rOut, countHist bool) (vs []*c12rV
 	// the semaphores the real setupSemaphores created vs the model's account (localSizes):
 	// cores, memory, vmem iff configured, and the process semaphore with mrp's standing
 	// reservation of startingThreadCount = 45, i.e. maxSize - 45 left for jobs
+	if len(outs) == 0 {
+		return nil, 0, 0, ""
+	}
 	if b := outs[0].Before; true {
 		procs := "-"
 		real := []string{strconv.FormatInt(b[0].Max, 10), strconv.FormatInt(b[1].Max, 10)}
